@@ -2,6 +2,7 @@
 #![allow(clippy::too_many_arguments, clippy::type_complexity)]
 
 mod args;
+mod crashimg;
 mod engines;
 mod indep;
 mod model;
@@ -27,6 +28,7 @@ fn main() {
         }
         "fsm" => engines::fsm::run(&args),
         "model" => engines::model::run(&args),
+        "crash" => engines::crash::run(&args),
         "scratch" => engines::scratchpad::run(&args),
         other => {
             eprintln!("unknown engine {other}");
